@@ -214,4 +214,154 @@ theorem dml_example_span : ∃ (s : PStmt) (pre rest : List Token), dmlPosToks =
     exact ⟨p.1, pre, p.2, hts, ho⟩
   | _ => have := dmlPos_parse; rw [h] at this; cases this
 
+/-! ## nesting and order inside ONE statement, on lexer output (session 4): DELETE
+
+`all` = the tokens of the input, `k` the DELETE token, `ts` the tokens behind it.  The statement's range is
+`[Pos(), End()) = [k.pos, End(Where))`; inside it, in source order and without overlap: the keyword, the table path, the
+alias (if any), the Where node; every part is non-empty and the statement ends inside the input. -/
+theorem dml_delete_positions {buf : Bytes} {all l ts rest : List Token} {f : Nat} {k : Token} {s : PStmt}
+    (hl : Lex.lexAll buf = .ok all) (hall : all = l ++ k :: ts)
+    (h : parseDelete parsePExpr f k.pos ts = .ok (s, rest)) (hr : rest ≠ []) :
+    ∃ tbl al wh, s = .delete k.pos tbl al wh ∧
+      posD s < posPath tbl ∧ posPath tbl < endPath tbl ∧ endPath tbl ≤ posWhere wh ∧ posWhere wh < endWhere wh ∧
+      endWhere wh = endD s ∧ endD s ≤ buf.length ∧
+      (∀ a, al = some a → endPath tbl ≤ posAlias a ∧ posAlias a < endAlias a ∧ endAlias a ≤ posWhere wh) := by
+  have hTall := lexed_tokensOK hl
+  have hT : TokensOK buf.length ts := by
+    have e : all = (l ++ [k]) ++ ts := by rw [hall]; simp
+    rw [e] at hTall; exact hTall.suffix
+  obtain ⟨preF, preP, preA, preW, tbl, al, wh, hs, hts, hoP, hoA, hoW⟩ := deleteP_struct hT h
+  have hneW := hoW.1
+  refine ⟨tbl, al, wh, hs, ?_, ?_, ?_, ?_, ?_, ?_, ?_⟩
+  · -- keyword before the path
+    have h1 := Query.over_facts (l := l) (run := [k]) (r := ts) hl (by rw [hall]; simp)
+      (by rw [hts]; simp [hneW]) (Query.Over.one k)
+    have h2 := Query.over_ordered (l := l) (c1 := [k]) (m := preF) (c2 := preP) (r := preA ++ (preW ++ rest)) hl
+      (by rw [hall, hts]; simp) (Query.Over.one k) hoP
+    rw [hs]; simp only [posD]; omega
+  · exact (Query.over_facts (l := l ++ k :: preF) (run := preP) (r := preA ++ (preW ++ rest)) hl (by rw [hall, hts]; simp)
+      (by simp [hneW]) hoP).2.2.1
+  · exact Query.over_ordered (l := l ++ k :: preF) (c1 := preP) (m := preA) (c2 := preW) (r := rest) hl
+      (by rw [hall, hts]; simp) hoP hoW
+  · exact (Query.over_facts (l := l ++ k :: (preF ++ (preP ++ preA))) (run := preW) (r := rest) hl (by rw [hall, hts]; simp)
+      hr hoW).2.2.1
+  · rw [hs]; rfl
+  · rw [hs]; simp only [endD]
+    exact (Query.over_facts (l := l ++ k :: (preF ++ (preP ++ preA))) (run := preW) (r := rest) hl (by rw [hall, hts]; simp)
+      hr hoW).2.2.2
+  · intro a ha
+    rcases hoA with ⟨hn, _⟩ | ⟨a', ha', hoA'⟩
+    · rw [hn] at ha; cases ha
+    · rw [ha'] at ha; cases ha
+      refine ⟨?_, ?_, ?_⟩
+      · exact Query.over_ordered (l := l ++ k :: preF) (c1 := preP) (m := []) (c2 := preA) (r := preW ++ rest) hl
+          (by rw [hall, hts]; simp) hoP hoA'
+      · exact (Query.over_facts (l := l ++ k :: (preF ++ preP)) (run := preA) (r := preW ++ rest) hl (by rw [hall, hts]; simp)
+          (by simp [hneW]) hoA').2.2.1
+      · exact Query.over_ordered (l := l ++ k :: (preF ++ preP)) (c1 := preA) (m := []) (c2 := preW) (r := rest) hl
+          (by rw [hall, hts]; simp) hoA' hoW
+
+/-! ## UPDATE: keyword, table path, alias, the UpdateItems as a chain, the Where node -/
+
+open MF.Query (firstPos lastEnd) in
+theorem dml_update_positions {buf : Bytes} {all l ts rest : List Token} {f : Nat} {k : Token} {s : PStmt}
+    (hl : Lex.lexAll buf = .ok all) (hall : all = l ++ k :: ts)
+    (h : parseUpdate parsePExpr f k.pos ts = .ok (s, rest)) (hr : rest ≠ []) :
+    ∃ tbl al us wh, s = .update k.pos tbl al us wh ∧
+      posD s < posPath tbl ∧ posPath tbl < endPath tbl ∧
+      (∃ lo hi, endPath tbl ≤ lo ∧
+        (∀ a, al = some a → endPath tbl ≤ posAlias a ∧ posAlias a < endAlias a ∧ endAlias a ≤ lo) ∧
+        chainOK posItem endItem lo us hi ∧ hi ≤ posWhere wh) ∧
+      posWhere wh < endWhere wh ∧ endWhere wh = endD s ∧ endD s ≤ buf.length := by
+  have hTall := lexed_tokensOK hl
+  have hT : TokensOK buf.length ts := by
+    have e : all = (l ++ [k]) ++ ts := by rw [hall]; simp
+    rw [e] at hTall; exact hTall.suffix
+  obtain ⟨preP, preA, preU, preW, st, tbl, al, us, wh, hs, hts, hoP, hoA, hoU, hoW⟩ := updateP_struct hT h
+  have hneW := hoW.1
+  have hneU := hoU.ne
+  have hoU' : Over (firstPos preU) (lastEnd preU) preU := ⟨hneU, rfl, rfl⟩
+  refine ⟨tbl, al, us, wh, hs, ?_, ?_, ⟨firstPos preU, lastEnd preU, ?_, ?_, ?_, ?_⟩, ?_, ?_, ?_⟩
+  · have h1 := Query.over_facts (l := l) (run := [k]) (r := ts) hl (by rw [hall]; simp)
+      (by rw [hts]; simp) (Query.Over.one k)
+    have h2 := Query.over_ordered (l := l) (c1 := [k]) (m := []) (c2 := preP) (r := preA ++ (st :: (preU ++ (preW ++ rest)))) hl
+      (by rw [hall, hts]; simp) (Query.Over.one k) hoP
+    rw [hs]; simp only [posD]; omega
+  · exact (Query.over_facts (l := l ++ [k]) (run := preP) (r := preA ++ (st :: (preU ++ (preW ++ rest)))) hl
+      (by rw [hall, hts]; simp) (by simp) hoP).2.2.1
+  · exact Query.over_ordered (l := l ++ [k]) (c1 := preP) (m := preA ++ [st]) (c2 := preU) (r := preW ++ rest) hl
+      (by rw [hall, hts]; simp) hoP hoU'
+  · intro a ha
+    rcases hoA with ⟨hn, _⟩ | ⟨a', ha', hoA'⟩
+    · rw [hn] at ha; cases ha
+    · rw [ha'] at ha; cases ha
+      refine ⟨?_, ?_, ?_⟩
+      · exact Query.over_ordered (l := l ++ [k]) (c1 := preP) (m := []) (c2 := preA) (r := st :: (preU ++ (preW ++ rest))) hl
+          (by rw [hall, hts]; simp) hoP hoA'
+      · exact (Query.over_facts (l := l ++ k :: preP) (run := preA) (r := st :: (preU ++ (preW ++ rest))) hl
+          (by rw [hall, hts]; simp) (by simp) hoA').2.2.1
+      · exact Query.over_ordered (l := l ++ k :: preP) (c1 := preA) (m := [st]) (c2 := preU) (r := preW ++ rest) hl
+          (by rw [hall, hts]; simp) hoA' hoU'
+  · exact runs_chain hl hoU (l := l ++ k :: (preP ++ (preA ++ [st]))) (r := preW ++ rest) (by rw [hall, hts]; simp)
+      (by simp [hneW])
+  · exact Query.over_ordered (l := l ++ k :: (preP ++ (preA ++ [st]))) (c1 := preU) (m := []) (c2 := preW) (r := rest) hl
+      (by rw [hall, hts]; simp) hoU' hoW
+  · exact (Query.over_facts (l := l ++ k :: (preP ++ (preA ++ (st :: preU)))) (run := preW) (r := rest) hl
+      (by rw [hall, hts]; simp) hr hoW).2.2.1
+  · rw [hs]; rfl
+  · rw [hs]; simp only [endD]
+    exact (Query.over_facts (l := l ++ k :: (preP ++ (preA ++ (st :: preU)))) (run := preW) (r := rest) hl
+      (by rw [hall, hts]; simp) hr hoW).2.2.2
+
+/-! ## INSERT: keyword, table path, the VALUES keyword (= `Pos()` of the ValuesInput), the ValuesRows as a chain;
+`End()` of the statement = `End()` of the input = `End()` of the last row -/
+
+open MF.Query (firstPos lastEnd) in
+theorem dml_insert_positions {buf : Bytes} {all l ts rest : List Token} {f : Nat} {k : Token} {s : PStmt}
+    (hl : Lex.lexAll buf = .ok all) (hall : all = l ++ k :: ts)
+    (h : parseInsert parsePExpr f k.pos ts = .ok (s, rest)) (hr : rest ≠ []) :
+    ∃ ot tbl cs vi, s = .insert k.pos ot tbl cs vi ∧
+      posD s < posPath tbl ∧ posPath tbl < endPath tbl ∧ endPath tbl ≤ posInput vi ∧
+      (∃ lo, posInput vi < lo ∧ chainOK posRow endRow lo vi.rows (endInput vi)) ∧
+      endInput vi = endD s ∧ endD s ≤ buf.length := by
+  have hTall := lexed_tokensOK hl
+  have hT : TokensOK buf.length ts := by
+    have e : all = (l ++ [k]) ++ ts := by rw [hall]; simp
+    rw [e] at hTall; exact hTall.suffix
+  obtain ⟨vi0, rest0, hp0⟩ : ∃ vi0 rest0, parseInsert parsePExpr f k.pos ts = .ok (vi0, rest0) := ⟨_, _, h⟩
+  obtain ⟨pre0, preP, preC, preR, v, ot, tbl, cs, rs, hs, hts, hoP, hneC, hoR⟩ := insertP_struct hT h
+  have hneR := hoR.ne
+  have hoR' : Over (firstPos preR) (lastEnd preR) preR := ⟨hneR, rfl, rfl⟩
+  -- End() of the input is the end of the last row's run
+  obtain ⟨_, preS, htsS, _, hendS⟩ := insertP_over hT h
+  have hend : endD s = lastEnd preR := by
+    have e1 : preS = pre0 ++ (preP ++ (preC ++ (v :: preR))) := by
+      apply List.append_cancel_right (bs := rest)
+      rw [← htsS, hts]; simp
+    rw [hendS, e1]
+    have e2 : pre0 ++ (preP ++ (preC ++ (v :: preR))) = (pre0 ++ (preP ++ (preC ++ [v]))) ++ preR := by simp
+    rw [e2, Query.lastEnd_append hneR]
+  have hvi : endInput ⟨v.pos, rs⟩ = endD s := by rw [hs]; rfl
+  refine ⟨ot, tbl, cs, ⟨v.pos, rs⟩, hs, ?_, ?_, ?_, ⟨firstPos preR, ?_, ?_⟩, hvi, ?_⟩
+  · have h1 := Query.over_facts (l := l) (run := [k]) (r := ts) hl (by rw [hall]; simp)
+      (by rw [hts]; simp) (Query.Over.one k)
+    have h2 := Query.over_ordered (l := l) (c1 := [k]) (m := pre0) (c2 := preP) (r := preC ++ (v :: (preR ++ rest))) hl
+      (by rw [hall, hts]; simp) (Query.Over.one k) hoP
+    rw [hs]; simp only [posD]; omega
+  · exact (Query.over_facts (l := l ++ k :: pre0) (run := preP) (r := preC ++ (v :: (preR ++ rest))) hl
+      (by rw [hall, hts]; simp) (by simp) hoP).2.2.1
+  · exact Query.over_ordered (l := l ++ k :: pre0) (c1 := preP) (m := preC) (c2 := [v]) (r := preR ++ rest) hl
+      (by rw [hall, hts]; simp) hoP (Query.Over.one v)
+  · have h1 := Query.over_facts (l := l ++ k :: (pre0 ++ (preP ++ preC))) (run := [v]) (r := preR ++ rest) hl
+      (by rw [hall, hts]; simp) (by simp [hr]) (Query.Over.one v)
+    have h2 := Query.over_ordered (l := l ++ k :: (pre0 ++ (preP ++ preC))) (c1 := [v]) (m := []) (c2 := preR) (r := rest) hl
+      (by rw [hall, hts]; simp) (Query.Over.one v) hoR'
+    show v.pos < firstPos preR
+    omega
+  · rw [hvi, hend]
+    exact runs_chain hl hoR (l := l ++ k :: (pre0 ++ (preP ++ (preC ++ [v])))) (r := rest) (by rw [hall, hts]; simp) hr
+  · rw [hend]
+    exact (Query.over_facts (l := l ++ k :: (pre0 ++ (preP ++ (preC ++ [v])))) (run := preR) (r := rest) hl
+      (by rw [hall, hts]; simp) hr hoR').2.2.2
+
 end MF.Props.C05
